@@ -118,6 +118,29 @@ def make_cells(gi, tier):
                 scale=(_scale(case["x"])) ** 2 + np.max(np.abs(want)), x=x.tolist(), s=s, t=t)
 
     cells.append(Cell("%s/oneparam" % nm, st_case(), check_oneparam, nontrivial, classify, quick=150, thorough=3000))
+
+    # X + x := X exp(x) and X - x := X exp(-x) (operator sugar of group elements)
+    elem_s = gens.group_element(gi.layout, rot_strata=("zero", "tiny", "mid", "mid", "beyond"))
+    algs_s = gens.algebra_element(gi.alg_layout, rot_strata=("zero", "tiny", "mid", "mid"), max_angle=PI - 0.05, scales=(-1, 0, 0, 1))
+
+    def check_plusminus(case):
+        X = gens.encode_element(case["X"])
+        x = enc(case["x"])
+        require(L.euler_input_ok(gi, X))
+        Ex, Emx = gi.exp(x), gi.exp(-x)
+        for a, b in zip(L.mrp_slices(gi, X), L.mrp_slices(gi, Ex)):
+            require(L.mrp_product_ok(a, b))
+        for a, b in zip(L.mrp_slices(gi, X), L.mrp_slices(gi, Emx)):
+            require(L.mrp_product_ok(a, b))
+        P, Mn = [cy.vec(o) for o in gi.fn("grp_sugar")(X, x)]
+        MX = gi.toM(X)
+        wp, wm = MX @ ref.expm(gi.algM(x)), MX @ ref.expm(-gi.algM(x))
+        sc = float(np.max(np.abs(MX))) * (_scale(case["x"]) + 1)
+        L.close(gi.toM(P), wp, "%s: M(X + x) vs M(X) expm(hat x)" % nm, atol=3 * L.BAND_TOL if L.band_result(gi, wp) else 1e-9, scale=sc)
+        L.close(gi.toM(Mn), wm, "%s: M(X - x) vs M(X) expm(-hat x)" % nm, atol=3 * L.BAND_TOL if L.band_result(gi, wm) else 1e-9, scale=sc)
+
+    cells.append(Cell("%s/plus_minus" % nm, st.fixed_dictionaries({"X": elem_s, "x": algs_s}), check_plusminus,
+                      lambda c: nontrivial(c["x"]), None, quick=40, thorough=600, build=lambda: gi.fn("grp_sugar").build()))
     return cells
 
 
